@@ -128,6 +128,15 @@ def fuzz_leg(pid, cfg, work, base_env, scale):
                 m = re.search(r"--- FAIL: .*?\n((?:.*\n){0,12})", out)
                 viols.append((dst, "native fuzzing (%s) found a failing input:\n%s" % (name, (m.group(1) if m else out[-1500:]))))
             st["crashers"] = len(crashers)
+        elif rc != 0 and re.search(r"^\s*--- FAIL: Fuzz", out, re.M):
+            # a failing entry of the seed corpus (f.Add) is reported without a saved input
+            keep = os.path.join(VERIF, "replays", pid)
+            os.makedirs(keep, exist_ok=True)
+            dst = os.path.join(keep, "fuzzlog-%s.log" % name)
+            shutil.copy(log, dst)
+            m = re.search(r"--- FAIL: .*?\n((?:.*\n){0,12})", out)
+            viols.append((dst, "native fuzzing (%s): a seed corpus entry fails:\n%s" % (name, m.group(1) if m else "")))
+            st["crashers"] = 1
         elif rc != 0:
             notes.append("fuzz target %s: engine exited %d without writing a failing input (leg inconclusive); tail:\n%s" % (name, rc, out[-800:]))
         shutil.rmtree(os.path.join(HARNESS, cfg["pkg"], "testdata"), ignore_errors=True)
